@@ -69,8 +69,80 @@ Proof. exact file_open_fails_empty_xml_at_page_end. Qed.
 Theorem C01_instance : roundtrip_ok FileInstance.items FileInstance.xml.
 Proof. exact file_roundtrip_instance. Qed.
 
+(** The first sentence of the property at the level of the public API (slice wapi,
+    [Proofs/WapiAccept.v]; the converse of [C10_rejects]).  The whole writer
+    ([Model/WriterFull.v]: the call-by-call state machine with the XML generator plugged in) on
+    the empty fault-free paged device [pw0], a complete program - [new], then units (setters,
+    [add_blob], point cloud sessions [add_pointcloud .. finalize; drop], image sessions), then
+    [finalize] - whose arguments are values of their Rust types ([call_wf]).  If every call is
+    acceptable in the state it is issued in ([acceptable_calls]: the state of the machine after
+    the calls before it), every call returns Ok (CrOk / CrBlob) and the flush of [Drop] succeeds.
+    [acceptable_call st c] = [representable_call st c] (the documented rules, as in C10: the
+    prototype rules, no duplicate names, integer minimum <= maximum, extension names and URLs
+    well-formed / registered / distinct, values of the prototype's type, arity and range,
+    writers not finalized, custom limits complete, an image has a representation when
+    finalized) AND the two conditions the documentation does not state:
+    - [packet_margin proto] for [add_pointcloud]: the capacity check reserves one more byte per
+      record and 500 bytes on top of "one point fits a packet" ([packet_margin_iff]: exactly
+      [get_max_packet_points] = Ok).  Without it the statement is false:
+      [C10_fits_packet_not_enough] (Props/C10.v) is a prototype that follows every documented
+      rule, whose point fits a packet, and that is refused;
+    - [guid <> []] for [new]: [serialize_root] refuses an empty file GUID at [finalize].
+    No float oracle hypotheses, no size hypothesis: neither the crate nor the model bounds
+    offsets while writing (that they fit u64 is a hypothesis of the read-back below). *)
+From E57 Require Import Base.Floats Model.Meta Model.MetaFile Model.XmlTree Model.XmlGen Model.WriterApi Model.WriterFull
+  Spec.XgWriterOk Spec.XeMetaOk Proofs.C04Compose
+  Proofs.WapiInv Proofs.WapiFullProg Proofs.WapiFullMeta Proofs.WapiFullInv Proofs.WapiFull Proofs.WapiAccept.
+
+Theorem C01_api_accepts : forall (fmt64 fmt32 : N -> xstring) (version : xstring) guid tops,
+  units tops -> Forall call_wf tops ->
+  acceptable_calls (gen_xml_full fmt64 fmt32) (lib_version_text version) ws_init ls_init
+    (NewWriter guid :: tops ++ [Finalize]) ->
+  exists s st rs,
+    wrun (writer_run fmt64 fmt32 version (NewWriter guid :: tops ++ [Finalize])) pw0 = (s, Ok (st, rs)) /\
+    Forall res_ok rs /\ snd (pw_flush s) = Ok tt.
+Proof. exact api_accepts_units. Qed.
+
+(** End to end: an acceptable complete program (strings of XML characters, limits that are i64
+    values: [call_ok]) runs all-Ok, and - if the published numbers are values of their Rust types
+    (u64 offsets and counts, u32 image sizes, fewer than 65535 extensions, the XML within the
+    reader's limit, the file below 2^64 bytes) - the file opens, its XML extracts to the metadata
+    the state machine holds, and every point cloud and every blob is read back exactly
+    ([explains] ties the items to the calls; the conclusion is that of [C10_accepted_reads_back]).
+    [fmt64] .. [pf32]: Rust's Display / FromStr of floats as far as they are used. *)
+Theorem C01_api_roundtrip : forall (fmt64 fmt32 : N -> xstring) (pf64 pf32 : xstr -> option N)
+    (fdiv : N -> Z -> N) (version : xstring),
+  (forall b, plain_text (fmt64 b) = true) -> (forall b, plain_text (fmt32 b) = true) ->
+  (forall b, pf64 (fmt64 b) = Some (canon64 b)) -> (forall b, pf32 (fmt32 b) = Some (canon32 b)) ->
+  string_ok (lib_version_text version) = true ->
+  forall guid tops,
+  units tops ->
+  Forall call_ok (NewWriter guid :: tops ++ [Finalize]) ->
+  acceptable_calls (gen_xml_full fmt64 fmt32) (lib_version_text version) ws_init ls_init
+    (NewWriter guid :: tops ++ [Finalize]) ->
+  exists s st rs,
+    wrun (writer_run fmt64 fmt32 version (NewWriter guid :: tops ++ [Finalize])) pw0 = (s, Ok (st, rs)) /\
+    Forall res_ok rs /\
+    (forallb pc_u64 (ws_pcs st) = true -> forallb im_ok (ws_imgs st) = true ->
+     len (ws_exts st) < 65535 ->
+     (forall xml, gen_root (fill_meta fmt64 fmt32 (ws_meta st)) = Ok xml -> len xml <= MAX_XML_SIZE) ->
+     len (d_bytes (pw_dev (fst (pw_flush s)))) < 2 ^ 64 ->
+     exists is os xml bl,
+       explains tops is os (ws_pcs st) (ws_imgs st) bl /\
+       gen_root (fill_meta fmt64 fmt32 (ws_meta st)) = Ok xml /\
+       snd (pw_flush s) = Ok tt /\
+       let f := d_bytes (pw_dev (fst (pw_flush s))) in
+       all_pages_valid f = true /\
+       exists rs0 h d',
+         reader_open (dev_init f None) = (d', Ok (rs0, h, xml)) /\
+         read_meta pf64 pf32 fdiv xml = Ok (reader_view (fill_meta fmt64 fmt32 (ws_meta st))) /\
+         Forall2 (reads_back rs0) is os).
+Proof. exact api_roundtrip. Qed.
+
 Print Assumptions C01_file_roundtrip.
 Print Assumptions C01_writer_emits_spec.
 Print Assumptions C01_packet_capacity.
 Print Assumptions C01_empty_xml_at_page_end_refused.
 Print Assumptions C01_instance.
+Print Assumptions C01_api_accepts.
+Print Assumptions C01_api_roundtrip.
